@@ -208,7 +208,7 @@ func (x *Exec) guardCheck(st *State, key string, addr *Term, write bool) {
 	}
 	if g.guard == "mu+shard" && x.indexedAccess {
 		// also the atomicity of lookup-and-use per key that C01 rests on
-		x.Obls[len(x.Obls)-1].Tag = "C15,C01"
+		x.Obls[len(x.Obls)-1].Tag = "C15,C01,C09" // C09: a record looked up without the lock pairs old headers with a new body
 	}
 }
 
